@@ -42,15 +42,33 @@ def _check(out, exp, cont, model, what):
         assert out[0] == 'err' and issubclass(out[1], ParserError), what + ": must fail with ParserError"
 
 
-def list_op(n: int, e0: int, e1: int, e2: int, e3: int, i: int, v: int, use_dec: bool, di: int) -> None:
+def list_op(n: int, e0: int, e1: int, e2: int, e3: int, i: int, v: int, use_dec: bool, di: int, mix: int = 0) -> None:
     """
-    pre: 0 <= n <= 6 and -8 <= i <= 8 and 0 <= di < 11
+    pre: 0 <= n <= 6 and -8 <= i <= 8 and 0 <= di < 11 and 0 <= mix <= 3
     post: True
     """
     hlib.enter(locals())
     hlib.assume(hlib.deep() or (n <= 4 and -6 <= i <= 6))
     op = hlib.PARAM["lop"]
     text, model = LIST_OPS[op]
+    mix = hlib.concrete(mix, 0, 3)
+    hlib.assume(mix == 0 or op in ('index_of', 'remove', 'in', 'not_in'))
+    if mix:
+        # equal numbers of different classes are the same element: the language's literals (its own Decimal class),
+        # results of arithmetic (plain decimal.Decimal) and host ints / bools
+        import decimal as _dm
+        hlib.assume(n <= 3 and not use_dec and i == 0 and di == 0)
+        e0, e1, v = (hlib.concrete(x, 0, 2) for x in (e0, e1, v))
+        e2, e3 = e0, e1          # (the third element repeats the first)
+        with hlib.native():
+            if mix == 1:
+                e0, e1, e2, e3 = (_dm.Decimal(x) for x in (e0, e1, e2, e3))
+                v = Decimal(v)
+            elif mix == 2:
+                v = _dm.Decimal(v) + 0
+            else:
+                e0, e1, e2, e3 = (Decimal(x) for x in (e0, e1, e2, e3))
+                v = (v == 1) if v in (0, 1) else v
     l = [e0, e1, e2, e3, e0, e1][:n]
     idx = DEC_IDX[di] if use_dec else i
     exp, after = model(list(l), idx, v)
